@@ -20,7 +20,10 @@ CNT_ALL = ['counter_array__expand8to16', 'counter_array__expand16to32', 'counter
            'counter_array__shrink32to16', 'counter_array__shrink32to8']
 W = ['array_watcher__expandElementSize', 'array_watcher__shrinkElementSize']
 
-def job(name, enforce, replace=(), props=('C06', 'C07'), **kw):
+C07_JOBS = {'cnt_expand8to16', 'cnt_expand16to32', 'cnt_get', 'cnt_increment', 'cnt_isPositiveAfterDecrement', 'cnt_swap', 'cnt_expand', 'cnt_shrink'}
+
+def job(name, enforce, replace=(), props=None, **kw):
+    props = props or (('C06', 'C07') if name in C07_JOBS else ('C06',))
     d = dict(name=name, entry='h_' + name, enforce=enforce, replace=list(replace) + W, props=list(props))
     d.update(kw)
     return d
